@@ -55,15 +55,34 @@ structure St where
 
 def St.init : St := {}
 
+/-- `RootTypeSpec` of the typedef `(m, n)` in state `σ` (`none` is Go's nil). A typedef whose `Link` has not
+finished has no root yet; one that was linked while its target was a typedef still being linked has a nil
+root and `rootPending` set (stored `some none`): its root is worked out now, by following the targets as far
+as they are typedefs in the same situation (since the repair of finding D10; before, nil stayed nil). The
+fuel bounds the chain: typedefs that refer to each other directly have no root. -/
+def lazyRoot (p : GProg) (σ : St) : Nat → Nat → Name → Option LType
+  | 0, _, _ => none
+  | f + 1, m, n =>
+    match lookupType p m n with
+    | some (.typedef target) =>
+      match alookup (m, n) σ.root with
+      | none => none
+      | some (some r) => some r
+      | some none =>
+        match resolveExpr p m target with
+        | some (.named m' n') =>
+          match lookupType p m' n' with
+          | some (.typedef _) => lazyRoot p σ f m' n'
+          | _ => none
+        | _ => none
+    | _ => some (.named m n)
+
+/-- more than the number of typedefs of the program: enough for every chain without repetition -/
+def rootFuel (p : GProg) : Nat := (p.map (fun md => md.types.length)).sum + 1
+
 /-- `RootTypeSpec(t)` in state `σ`; `none` is Go's nil. -/
 def rootIn (p : GProg) (σ : St) : LType → Option LType
-  | .named m n =>
-    match lookupType p m n with
-    | some (.typedef _) =>
-      match alookup (m, n) σ.root with
-      | some r => r
-      | none => none
-    | _ => some (.named m n)
+  | .named m n => lazyRoot p σ (rootFuel p) m n
   | t => some t
 
 def St.sdoneOf (σ : St) (k : Nat × Name) : Nat := (alookup k σ.sdone).getD 0
